@@ -47,6 +47,10 @@ def gen_elem(r, kind):
         return ("str", r.choice(["a", "b", "ab", "", "c"]))
     if kind == "mix":
         return r.choice([("int", 1), ("dec", 1.0), ("int", 2), ("dec", 2.0), ("dec", 0.5), ("int", 0)])
+    if kind == "obj":
+        # equal objects are distinct values that compare equal (also: lists of them, maps)
+        return r.choice([("obj", (("a", ("int", r.randint(0, 2))),)), ("obj", (("a", ("int", 1)), ("b", ("str", "x")))), ("obj", ()),
+                         ("map", ((("str", "a"), ("int", r.randint(0, 2))),)), ("list", (("obj", (("a", ("int", r.randint(0, 1))),)),))])
     raise ValueError(kind)
 
 
@@ -127,11 +131,12 @@ def run_collections(spec, ctx):
     R = Runner(ctx)
     r = ctx.rng
     for i in range(spec["n"]):
-        kind = r.choice(["int", "int", "dec", "str", "mix"])
+        kind = r.choice(["int", "int", "dec", "str", "mix", "obj"])
         a, b = gen_list(r, kind), gen_list(r, kind)
         as_set = r.random() < 0.5
+        b_as_set = r.random() < 0.5
         A = src(SET(a) if as_set else L(a), r)
-        B = src(SET(b) if r.random() < 0.5 else L(b), r)
+        B = src(SET(b) if b_as_set else L(b), r)
         # set algebra (reference: classes under ref_eq)
         inter = [x for x in rv.dedupe(a) if rv.member(x, b)]
         diffab = [x for x in rv.dedupe(a) if not rv.member(x, b)]
@@ -143,6 +148,11 @@ def run_collections(spec, ctx):
         R.expect("%s%sintersection(%s, %s)" % (pre, q, A, B), SET(inter), "intersection", ("inter", A, B), exact_kinds=False, modern=modern)
         R.expect("%s%sdiff(%s, %s)" % (pre, q, A, B), SET(diffab), "diff", ("diff", A, B), exact_kinds=False, modern=modern)
         R.expect("%s%ssymmetric_diff(%s, %s)" % (pre, q, A, B), SET(diffab + diffba), "symmetric_diff", ("symd", A, B), exact_kinds=False, modern=modern)
+        # the operands held in variables and used for all four in turn: each call sees them as they were
+        R.expect("%sdef sa = %s; def sb = %s; [%sunion(sa, sb), %sintersection(sa, sb), %sdiff(sa, sb), %ssymmetric_diff(sa, sb), %sunion(sa, sb), sa, sb]" % (
+            "require Set; " if modern else "", A, B, q, q, q, q, q),
+            L([SET(a + b), SET(inter), SET(diffab), SET(diffab + diffba), SET(a + b), SET(a) if as_set else L(a), SET(b) if b_as_set else L(b)]),
+            "set-algebra:operands-reused", ("reused", A, B), exact_kinds=False, modern=modern)
         # list utilities
         la = src(L(a), r)
         lb = src(L(b), r)
